@@ -181,15 +181,29 @@ fn sphere<T: Tier + Dom<M = Sh>>(rep: &mut Report) {
     let ts: [f64; 6] = [0.0, 0.125, 0.25, 0.5, 0.75, 1.0];
     let n_pairs = sub.len() * sub.len();
     let n_con = sub.len() * cosines.len();
+    // nearly orthogonal pairs whose tiny dot product is computed exactly (one non-zero term)
+    let eps_list: [f64; 6] = [1e-17, -1e-17, 1e-10, -1e-10, 3e-8, -3e-8];
+    let n_orth = 12 * eps_list.len();
     rep.cases(
         "sphere",
         T::NAME,
         &format!("all {}x{} pairs of rational unit quaternions + {} constructed pairs b = a*R(axis, theta), cos theta in {:?}; amounts {:?}; nlerp and slerp", sub.len(), sub.len(), n_con, cosines, ts),
-        n_pairs + n_con,
+        n_pairs + n_con + n_orth,
         Guard::states(100).distinct(100).need("slerp-regime", 20).need("nlerp-regime", 5).need("negative-dot", 20).need("zero-dot", 1),
         |i, ctx| {
             let c = |x: f64| num_traits::cast::<f64, T>(x).unwrap();
-            let (a, b): ([T; 4], [T; 4]) = if i < n_pairs {
+            let (a, b): ([T; 4], [T; 4]) = if i >= n_pairs + n_con {
+                // a = e_p, b = e_q + eps * e_p (p != q): a.b = eps exactly, |b| = 1 up to eps^2
+                let j = i - n_pairs - n_con;
+                let (pq, e) = (j / eps_list.len(), eps_list[j % eps_list.len()]);
+                let (p, q) = (pq / 3, (pq / 3 + 1 + pq % 3) % 4);
+                let mut av = [0.0f64; 4];
+                let mut bv = [0.0f64; 4];
+                av[p] = 1.0;
+                bv[q] = 1.0;
+                bv[p] = e;
+                (av.map(c), bv.map(c))
+            } else if i < n_pairs {
                 let (x, y) = (sub[i / sub.len()], sub[i % sub.len()]);
                 (std::array::from_fn(|j| T::q(x.0[j], x.1)), std::array::from_fn(|j| T::q(y.0[j], y.1)))
             } else {
@@ -211,7 +225,11 @@ fn sphere<T: Tier + Dom<M = Sh>>(rep: &mut Report) {
             let dot = dot4(af, bf);
             // shorter arc: towards b if a.b >= 0, else towards -b. When a.b is zero up to rounding, its
             // computed sign is noise and either arc (both a quarter turn) satisfies the statement.
-            let ambiguous = dot.abs() <= 64.0 * T::U;
+            // "zero up to rounding": the dot product as the implementation evaluates it (in T) can differ from
+            // the true one by a few u * (sum of |terms|); below that its sign is noise, above it is a fact
+            let dsh = model::vdot::<Sh, 4>(a.map(|x| Sh::exact(x.f())), b.map(|x| Sh::exact(x.f())));
+            let ambiguous = dsh.v.abs() <= 8.0 * T::U * dsh.e;
+            let dot = if ambiguous { dot } else { dsh.v };
             let cands: Vec<[f64; 4]> = if ambiguous { vec![bf, scale4(bf, -1.0)] } else if dot < 0.0 { vec![scale4(bf, -1.0)] } else { vec![bf] };
             if dot == 0.0 || ambiguous {
                 ctx.branch("zero-dot");
